@@ -1,0 +1,36 @@
+//go:build verif
+
+// Contracts checked by /verif (govc). Comments only; not part of any normal build.
+// connbuf(c): the octets buffered in the connection; connstream(c): the octets a blocking read delivers.
+
+package codec
+
+//@ pure func plen(b Bytes) int = dbe32(take(b, 4))
+
+//@ func (cc *CMPPCodec) Decode
+//@   props C04,C03
+//@   requires c != nil
+//@   ensures [C04 complete] len(old(connbuf(c))) >= 4 && plen(old(connbuf(c))) >= 4 && len(old(connbuf(c))) >= plen(old(connbuf(c))) ==> err == nil && result == take(old(connbuf(c)), plen(old(connbuf(c)))) && connbuf(c) == drop(old(connbuf(c)), plen(old(connbuf(c))))
+//@   ensures [C04 incomplete] len(old(connbuf(c))) < 4 || (plen(old(connbuf(c))) >= 4 && len(old(connbuf(c))) < plen(old(connbuf(c)))) ==> err == ErrPacketNotComplete && len(result) == 0 && connbuf(c) == old(connbuf(c))
+//@   ensures [C04 malformed] len(old(connbuf(c))) >= 4 && plen(old(connbuf(c))) < 4 ==> err != nil && err != ErrPacketNotComplete && len(result) == 0
+
+//@ func (cc *SMPPCodec) Decode
+//@   props C04,C03
+//@   requires c != nil
+//@   ensures [C04 complete] len(old(connbuf(c))) >= 4 && plen(old(connbuf(c))) >= 4 && len(old(connbuf(c))) >= plen(old(connbuf(c))) ==> err == nil && result == take(old(connbuf(c)), plen(old(connbuf(c)))) && connbuf(c) == drop(old(connbuf(c)), plen(old(connbuf(c))))
+//@   ensures [C04 incomplete] len(old(connbuf(c))) < 4 || (plen(old(connbuf(c))) >= 4 && len(old(connbuf(c))) < plen(old(connbuf(c)))) ==> err == ErrPacketNotComplete && len(result) == 0 && connbuf(c) == old(connbuf(c))
+//@   ensures [C04 malformed] len(old(connbuf(c))) >= 4 && plen(old(connbuf(c))) < 4 ==> err != nil && err != ErrPacketNotComplete && len(result) == 0
+
+//@ func (cc *CMPPCodec) DecodeBlocked
+//@   props C04,C03
+//@   requires c != nil
+//@   ensures [C04 frame] err == nil ==> len(old(connstream(c))) >= 4 && plen(old(connstream(c))) >= 4 && len(old(connstream(c))) >= plen(old(connstream(c))) && result == take(old(connstream(c)), plen(old(connstream(c)))) && connstream(c) == drop(old(connstream(c)), plen(old(connstream(c))))
+//@   ensures [C04 error] err != nil ==> len(result) == 0
+//@   ensures [C03 alloc] alloc <= 1048576
+
+//@ func (cc *SMPPCodec) DecodeBlocked
+//@   props C04,C03
+//@   requires c != nil
+//@   ensures [C04 frame] err == nil ==> len(old(connstream(c))) >= 4 && plen(old(connstream(c))) >= 4 && len(old(connstream(c))) >= plen(old(connstream(c))) && result == take(old(connstream(c)), plen(old(connstream(c)))) && connstream(c) == drop(old(connstream(c)), plen(old(connstream(c))))
+//@   ensures [C04 error] err != nil ==> len(result) == 0
+//@   ensures [C03 alloc] alloc <= 1048576
